@@ -8,7 +8,7 @@
    fx = true  : mpf with fixes/C07-*.patch (what ./check C07 ties to the code)
    fx = false : the code as found (only used by the _refuted theorems). *)
 From Common Require Import Prelude.
-From C07 Require Import Model Lemmas Devices LemDevices LemLive Controller.
+From C07 Require Import Model Lemmas Devices LemDevices LemLive Controller Own LemOwn.
 Open Scope Z_scope.
 
 (* 1. "each mode moves strictly stopped, starting, active, stopping, stopped, posting its will_start / starting /
@@ -304,3 +304,123 @@ Example ex_ball_end :
   act s' = [3] /\ ph s' 1 = Idle /\ ph (run_ops s' (ball_starting c [2])) 2 = Starting.
 Proof. vm_compute. repeat split. Qed.
 Print Assumptions ex_ball_end.
+
+(* ---- round 4: what a mode owns in the switch controller and in its config players (Own.v) -------------------------------
+   [orun stp h] is the state after history h of
+       OStart | OQStarted | OStop | OQStopped | OCbStopped            (Mode methods, guards as in Model.v)
+     | OReg ser key tracked t | OUnreg key                            (add / remove_switch_handler_obj; tracked = through the mode)
+     | OChange sw st t | OFire sw t                                   (a switch changes; the timed-handler task of a switch wakes up)
+     | OCall e live | ODone e                                         (config_play_callback from the live or a COPIED handler list;
+                                                                       the wait_for event of a queue relay)
+   for ANY set stp of callbacks that stop the mode when they are invoked (removal in the middle of the dispatch loops),
+   any times t, any interleaving.  [oinvoked stp s h] = the switch callbacks invoked along h from s. *)
+
+(* 3c. "Once a mode has stopped, every ... switch handler ... it registered is gone": for every history h1 in which callback cb
+   was only ever registered through the mode (Mode.switch_handlers), if the mode is stopped after h1 then for EVERY continuation
+   h2 that does not register cb again (switch changes at any time, wake-ups of the timed-handler task, other modes' and foreign
+   registrations, further cycles of the mode) cb is never invoked - in particular not by a "held for ms" handler that was
+   already counting when the mode stopped, whichever way it started counting (switch change or catch-up at registration). *)
+Theorem mode_switch_handlers_never_fire_after_stop :
+  forall stp cb h1 h2,
+    forallb (fun o => negb (is_untracked_reg_of cb o)) h1 = true ->
+    oph (orun stp h1) = Idle ->
+    forallb (fun o => negb (is_reg_of cb o)) h2 = true ->
+    ~ In cb (oinvoked stp (orun stp h1) h2).
+Proof. exact never_fire_after_stop_l. Qed.
+Print Assumptions mode_switch_handlers_never_fire_after_stop.
+
+(* ... and the switch controller's tables hold nothing of it: Mode.switch_handlers is empty, no registered handler and no
+   counting entry of _active_timed_switches carries a callback that was only registered through the mode *)
+Theorem idle_mode_owns_no_switch_entry :
+  forall stp cb h,
+    forallb (fun o => negb (is_untracked_reg_of cb o)) h = true ->
+    oph (orun stp h) = Idle ->
+    trk (orun stp h) = [] /\
+    (forall r, In r (regs (orun stp h)) -> k_cb (r_key r) <> cb) /\
+    (forall c, In c (cnt (orun stp h)) -> k_cb (c_key c) <> cb).
+Proof. exact idle_mode_owns_no_switch_entry_l. Qed.
+Print Assumptions idle_mode_owns_no_switch_entry.
+
+(* the invariant behind both (any owner, any state of the mode): every counting entry of the timed table belongs to a handler
+   that is still registered with the same (callback, switch, state, ms) - removal covers both tables *)
+Theorem counting_entries_belong_to_registered_handlers :
+  forall stp h c, In c (cnt (orun stp h)) -> exists r, In r (regs (orun stp h)) /\ r_key r = c_key c.
+Proof. exact counting_belongs_to_registered_l. Qed.
+Print Assumptions counting_entries_belong_to_registered_handlers.
+
+(* from ANY state that satisfies the invariant: a callback without a registration is not invoked until it is registered again
+   (covers handlers of other owners removed through remove_switch_handler_by_key as well) *)
+Theorem unregistered_callback_never_invoked :
+  forall stp cb s h,
+    (forall c, In c (cnt s) -> exists r, In r (regs s) /\ r_key r = c_key c) ->
+    (forall r, In r (regs s) -> k_cb (r_key r) <> cb) ->
+    forallb (fun o => negb (is_reg_of cb o)) h = true -> ~ In cb (oinvoked stp s h).
+Proof. exact unregistered_never_invoked_l. Qed.
+Print Assumptions unregistered_callback_never_invoked.
+
+(* "... so the machine's registries are exactly what they were": the bulk removals of the mode touch nothing else - a registered
+   handler or counting entry whose key is not in Mode.switch_handlers survives every lifecycle operation of the mode *)
+Theorem mode_lifecycle_keeps_foreign_switch_handlers :
+  forall stp s o,
+    (o = OStop \/ o = OCbStopped \/ o = OStart \/ o = OQStopped \/ o = OQStarted) ->
+    (forall r, In r (regs s) -> key_in (r_key r) (trk s) = false -> In r (regs (fst (ostep stp s o)))) /\
+    (forall c, In c (cnt s) -> key_in (c_key c) (trk s) = false -> In c (cnt (fst (ostep stp s o)))).
+Proof. exact stop_keeps_foreign_l. Qed.
+Print Assumptions mode_lifecycle_keeps_foreign_switch_handlers.
+
+(* 3d. config players: whenever the mode is not active (idle, starting, or _stopped has run) none of its queue-relay wait
+   handlers is registered, and its player handlers are registered exactly while it is starting - for every history, including
+   calls of config_play_callback from handler lists copied before the handlers were unloaded, at any time *)
+Theorem stopped_mode_has_no_player_state :
+  forall stp h, is_act (oph (orun stp h)) = false ->
+    relay (orun stp h) = [] /\ loaded (orun stp h) = phase_eqb (oph (orun stp h)) Starting.
+Proof. exact stopped_mode_has_no_player_state_l. Qed.
+Print Assumptions stopped_mode_has_no_player_state.
+
+(* nothing is ever played for a mode that is not active: every play along every history happened while _active was set *)
+Theorem players_play_only_while_active :
+  forall stp h e p, In (e, p) (oplayed stp oinit h) -> is_act p = true.
+Proof. intros stp h e p. exact (oplayed_from stp h oinit e p). Qed.
+Print Assumptions players_play_only_while_active.
+
+(* a call from a stale (copied) handler list that reaches a mode which is not active changes nothing *)
+Theorem stale_player_call_is_noop :
+  forall stp s e, is_act (oph s) = false -> ostep stp s (OCall e false) = (s, (0, [], [])).
+Proof. exact stale_call_noop_l. Qed.
+Print Assumptions stale_player_call_is_noop.
+
+(* satisfiability: callback 1 ("held 2 s", registered through the mode while switch 7 is already held: catch-up) and the foreign
+   callback 100 with the same parameters are both counting; the mode stops; at the deadline only 100 is invoked; the relay
+   handler registered by the play at step 6 is gone, the stale call at the end plays nothing *)
+Example ex_owned_switch_and_player_state :
+  oph (orun (fun _ => false) ex_own_hist) = Idle /\
+  map c_dl (cnt (orun (fun _ => false) (firstn 5 ex_own_hist))) = [3000000; 3000000] /\
+  map (fun c => k_cb (c_key c)) (cnt (orun (fun _ => false) ex_own_hist)) = [100] /\
+  oinvoked (fun _ => false) (orun (fun _ => false) ex_own_hist) [OFire 7 3000000] = [100] /\
+  relay (orun (fun _ => false) (firstn 6 ex_own_hist)) = [2] /\
+  oplayed (fun _ => false) oinit ex_own_hist = [(2, Active)].
+Proof. exact ex_own. Qed.
+Print Assumptions ex_owned_switch_and_player_state.
+
+(* a callback that stops its own mode from inside _call_handlers: the mode's later handler for the same switch is skipped *)
+Example ex_stop_from_switch_callback :
+  oinvoked (fun cb => cb =? 1) oinit
+    [OStart; OQStarted; OReg 1 (mkK 1 7 1 0) true 0; OReg 2 (mkK 2 7 1 0) true 0; OReg 3 (mkK 100 7 1 0) false 0;
+     OChange 7 1 1000000] = [1; 100].
+Proof. exact ex_own_stopper. Qed.
+Print Assumptions ex_stop_from_switch_callback.
+
+(* Finding 7 (known finding started-callback-of-earlier-start-runs-hook; replay corpus/C07/life.12.json).  The full statement
+     "the mode_start() hook runs once per stopped -> active transition"
+   is FALSE of the faithful model (and of the code): after  start, started, stop, stopped, clean-up, start, started  - one complete
+   cycle and a second start, both mode_<m>_started events posted, their two callbacks still outstanding, which is what a stop +
+   restart issued by handlers of mode_<m>_started produces - BOTH callbacks run the hook (status 1), because
+   _mode_started_callback only looks at _active. *)
+Theorem start_hook_once_per_start_refuted :
+  exists h m, let s := run_state true h in
+    ph s m = Active /\
+    proj m (run_events true h) = [0; 1; 2; 3; 4; 5; 0; 1; 2] /\
+    r_status (snd (step true s (CbStarted m))) = 1 /\
+    r_status (snd (step true (fst (step true s (CbStarted m))) (CbStarted m))) = 1.
+Proof. exact start_hook_once_refuted_l. Qed.
+Print Assumptions start_hook_once_per_start_refuted.
